@@ -673,3 +673,46 @@ def indices_space(t):
                     return c[0], rest, c[1]
     return None
 
+
+
+def meshgrid_space(t):
+    """(ranges, indexing) when t is  np.stack(np.meshgrid(*ranges[, indexing=..]), axis=-1).reshape(N, len(ranges)) : one row per grid
+    point.  With indexing='ij' the rows come in row-major order of the ranges (the enumeration of itertools.product); with the default
+    'xy' the first two axes are swapped, so for two or more ranges the rows come in another order.  Else None."""
+    if not (isinstance(t, tuple) and t and t[0] == "app" and t[1] == "reshape" and len(t[2]) == 3):
+        return None
+    st, _n, k = t[2]
+    if not (st[0] == "app" and st[1] == "stack" and len(st[2]) == 2 and st[2][1] == ("kw", "axis", K(-1))):
+        return None
+    mg = st[2][0]
+    if not (mg[0] == "app" and mg[1] in ("?np.meshgrid", "np.meshgrid", "?jnp.meshgrid", "jnp.meshgrid")):
+        return None
+    pos = [x for x in mg[2] if x[0] != "kw"]
+    kws = {x[1]: x[2] for x in mg[2] if x[0] == "kw"}
+    if len(pos) != 1 or pos[0][0] != "star" or set(kws) - {"indexing", "copy", "sparse"}:
+        return None
+    if kws.get("sparse", ("const", False)) != ("const", False):
+        return None
+    ranges = pos[0][1]
+    if not (k[0] == "app" and k[1] == "len" and len(k[2]) == 1 and k[2][0] == ranges):
+        return None
+    ix = kws.get("indexing", ("const", "xy"))
+    if ix[0] != "const" or ix[1] not in ("ij", "xy"):
+        return None
+    return ranges, ix[1]
+
+
+def canonical_space(t):
+    """A space chosen between alternative constructions (`ite`) all of which are the same enumeration is that enumeration;
+    the ij-indexed meshgrid idiom is the product of its ranges.  Anything else is returned unchanged."""
+    if not (isinstance(t, tuple) and t):
+        return t
+    if t[0] == "ite":
+        a, b = canonical_space(t[2]), canonical_space(t[3])
+        if repr(alpha_norm(a)) == repr(alpha_norm(b)):
+            return a
+        return t
+    mg = meshgrid_space(t)
+    if mg is not None and mg[1] == "ij":
+        return ("app", "itertools.product", (("star", mg[0]),))
+    return t
